@@ -253,6 +253,7 @@ func calledFunc(p *packages.Package, call *ast.CallExpr) *types.Func {
 // mapRangeHarmless recognises the bodies whose effect does not depend on iteration order:
 //   - "collect then sort": every statement appends the key/value to a slice that is sorted later in the function;
 //   - pure accumulation into another map / set membership, deletion from a map, commutative integer sums;
+//
 // and returns the reason, or "" if the body may have an order-dependent effect.
 func mapRangeHarmless(p *packages.Package, fd *ast.FuncDecl, rs *ast.RangeStmt) string {
 	appended := map[string]bool{}
